@@ -4,5 +4,8 @@ CONSTANTS
   Rounds = 2
   NoCall = NoCall
   None = None
+  RX = RX
+  ResetDropsStale = FALSE
+  MaxResets = 0
 INVARIANT MutualExclusion
 PROPERTY Termination
